@@ -261,8 +261,69 @@ func (a *A) ruleAggregatorReset() {
 		a.Und(fname(pw)+"#reset-after-batch", pw.Pos(), "aggregator Add/GetResults calls not found")
 		return
 	}
+	// a Reset that is deferred before GetResults runs on every way out, the panicking ones included: `defer
+	// agg.Reset()`, or a deferred helper / literal that calls Reset on all its paths
+	resetsAlways := func(f *ssa.Function) bool {
+		if f == nil || f.Blocks == nil {
+			return false
+		}
+		ok := false
+		allInstrs(f, func(in ssa.Instruction) {
+			c := callCommon(in)
+			if c == nil || !c.IsInvoke() || c.Method.Name() != "Reset" {
+				return
+			}
+			if _, isDefer := in.(*ssa.Defer); isDefer {
+				return
+			}
+			all := true
+			recv := c.Value
+			for _, b := range f.Blocks {
+				if b == f.Recover {
+					continue // entered only after a recovered panic
+				}
+				if _, isRet := b.Instrs[len(b.Instrs)-1].(*ssa.Return); isRet && !(in.Block() == b || in.Block().Dominates(b)) {
+					// a way out without Reset is fine when there is no aggregator to reset
+					if !guardedNil(b, func(x ssa.Value) bool { return x == recv }, true) {
+						all = false
+					}
+				}
+			}
+			if all {
+				ok = true
+			}
+		})
+		return ok
+	}
+	deferredReset := func(g ssa.Instruction) bool {
+		found := false
+		allInstrs(pw, func(in ssa.Instruction) {
+			d, isDefer := in.(*ssa.Defer)
+			if !isDefer || !(d.Block() == g.Block() && instrIndex(d) < instrIndex(g) || d.Block() != g.Block() && d.Block().Dominates(g.Block())) {
+				return
+			}
+			if d.Call.IsInvoke() {
+				if d.Call.Method.Name() == "Reset" {
+					found = true
+				}
+				return
+			}
+			callee := d.Call.StaticCallee()
+			if mc, isMC := d.Call.Value.(*ssa.MakeClosure); isMC {
+				callee, _ = mc.Fn.(*ssa.Function)
+			}
+			if resetsAlways(callee) {
+				found = true
+			}
+		})
+		return found
+	}
 	// every path from GetResults to return passes Reset, unless it takes the err != nil arm
 	for _, g := range getRes {
+		if deferredReset(g) {
+			a.Ok(fname(pw)+"#reset-after-batch", g.Pos(), "the aggregator's Reset is deferred before GetResults: it runs on every way out of the batch")
+			continue
+		}
 		exit := pathToExitAvoiding(g, func(in ssa.Instruction) bool {
 			for _, r := range reset {
 				if in == r {
